@@ -514,7 +514,13 @@ fn main() {
             let th = tier == Tier::Thorough;
             let (d, wall) = (tier.pick(3, 4), tier.pick(25, 500));
             for fl in [Flavour::Base, Flavour::AllowList, Flavour::BlockList, Flavour::Votes, Flavour::Rwa, Flavour::Vault(0), Flavour::Vault(3)] {
-                let dd = if matches!(fl, Flavour::Vault(_) | Flavour::Rwa) { d - 1 } else { d };
+                // thorough: depth 4 (about 16 M transitions, 5 min) for the plain token only; the other
+                // flavours share `Base::update` and run the thorough alphabet to depth 3
+                let dd = match fl {
+                    Flavour::Base => d,
+                    Flavour::Vault(_) | Flavour::Rwa => d - 1,
+                    _ => 3,
+                };
                 r.world(&Tok { flavour: fl, thorough: th }, &Bounds::new(dd, wall));
             }
             if let Some(rep) = r.report() {
